@@ -3,6 +3,7 @@
 // long double; containment, order/direction (monotone arc-length parameters) and total length (DESIGN.md section 3, C09).
 #include "geom.h"
 #include "gen.h"
+#include "c08_corner.h"
 #include "clipper2/clipper.h"
 
 using namespace vf;
@@ -103,30 +104,35 @@ static bool judge_call(Ctx& ctx, const Case& c, const RB& R, const Paths64& PP, 
   strict_cuts = tot.cuts;
   const long long cross = tot.cuts + tot.bverts;   // boundary crossings: cut points plus input vertices lying on the boundary
 
-  // ---- containment: vertices at most 1 outside the rectangle; vertices and edge midpoints within 1.5 of the input
+  // ---- containment: vertices and edge midpoints within 1.5 of the input; vertices at most 1 outside the rectangle
   long long pts = 0;
-  for (auto& piece : res) {
-    for (size_t i = 0; i < piece.size(); ++i) {
+  for (int pass = 0; pass < 2; ++pass)        // all vertices first, then the midpoints
+    for (auto& piece : res) for (size_t i = 0; i + (size_t)pass < piece.size(); ++i) {
       const Point64& v = piece[i];
-      int64_t ex = std::max<int64_t>(std::max(R.l - v.x, v.x - R.r), 0), ey = std::max<int64_t>(std::max(R.t - v.y, v.y - R.b), 0);
-      if (ex > 1 || ey > 1) {
-        ctx.violation("C09.inside_rect", { "vertex_outside_rect", multi }, c, what + "result vertex " + pstr(v) + " is " + std::to_string(std::max(ex, ey)) + " units outside the rectangle");
+      Point64 probe = pass == 0 ? Point64(2 * v.x, 2 * v.y) : Point64(v.x + piece[i + 1].x, v.y + piece[i + 1].y);
+      ++pts;
+      ld d = dist2x_to_lines(PP, probe) * 0.5L;
+      if (d > 1.5L + 1e-6L) {
+        std::vector<std::string> tags = { pass == 0 ? "vertex_off_input" : "midpoint_off_input", multi };
+        // classifier of the known defect: the vertex is exactly the origin (a default-constructed Point64) and some
+        // input segment passes within one unit of a rectangle corner
+        if (pass == 0 && v.x == 0 && v.y == 0) {
+          bool graze = false;
+          for (auto& P : PP) if (c08::passes_near_corner(P, false, c08::RBox{ R.l, R.t, R.r, R.b })) graze = true;
+          if (graze) tags = { "origin_vertex_from_corner_graze", multi };
+        }
+        ctx.violation("C09.on_input", tags, c,
+          what + (pass == 0 ? "result vertex " : "midpoint of the result edge starting at ") + pstr(v) + " is " + ldstr(d) + " from the input polyline(s)");
         return true;
       }
-      Point64 probes[2] = { Point64(2 * v.x, 2 * v.y), Point64(0, 0) };
-      int np = 1;
-      if (i + 1 < piece.size()) { probes[1] = Point64(v.x + piece[i + 1].x, v.y + piece[i + 1].y); np = 2; }
-      for (int k = 0; k < np; ++k) {
-        ++pts;
-        ld d = dist2x_to_lines(PP, probes[k]) * 0.5L;
-        if (d > 1.5L + 1e-6L) {
-          ctx.violation("C09.on_input", { k == 0 ? "vertex_off_input" : "midpoint_off_input", multi }, c,
-            what + (k == 0 ? "result vertex " : "midpoint of the result edge starting at ") + pstr(v) + " is " + ldstr(d) + " from the input polyline(s)");
+      if (pass == 0) {
+        int64_t ex = std::max<int64_t>(std::max(R.l - v.x, v.x - R.r), 0), ey = std::max<int64_t>(std::max(R.t - v.y, v.y - R.b), 0);
+        if (ex > 1 || ey > 1) {
+          ctx.violation("C09.inside_rect", { "vertex_outside_rect", multi }, c, what + "result vertex " + pstr(v) + " is " + std::to_string(std::max(ex, ey)) + " units outside the rectangle");
           return true;
         }
       }
     }
-  }
   ctx.count("result_points_checked", pts);
 
   // ---- order and direction: greedy monotone assignment of arc-length parameters over the concatenated inputs.
@@ -333,11 +339,47 @@ static bool gen_random(Ctx& ctx, Case& c) {
   return true;
 }
 
+// adversarial: segments whose line passes through a corner exactly or within a tiny fraction of a unit (c08_corner.h)
+static bool gen_corner(Ctx& ctx, Case& c) {
+  Rng& r = ctx.rng;
+  static const int mags[] = { 12, 20, 28, 32, 36, 38, 40 };
+  int e = mags[r.irange(0, 6)];
+  const int64_t M = (int64_t)1 << e;
+  int64_t hw = std::max<int64_t>(1, (int64_t)(M * r.real(0.02, 0.3))), hh = std::max<int64_t>(1, (int64_t)(M * r.real(0.02, 0.3)));
+  int64_t cx = r.range(-M / 8, M / 8), cy = r.range(-M / 8, M / 8);
+  RB R{ cx - hw, cy - hh, cx + hw, cy + hh };
+  int k = r.chance(0.6) ? 1 : r.irange(2, 3);
+  Paths64 PP;
+  for (int i = 0; i < k; ++i) {
+    Path64 P;
+    auto rnd = [&]() { return r.chance(0.4) ? Point64(r.range(R.l, R.r), r.range(R.t, R.b)) : Point64(r.range(-M, M), r.range(-M, M)); };
+    int pre = r.irange(0, 2), nseg = r.irange(1, 2), post = r.irange(0, 2);
+    for (int j = 0; j < pre; ++j) P.push_back(rnd());
+    for (int j = 0; j < nseg; ++j) {
+      Point64 p1, p2; bool into; int offs;
+      if (!c08::near_corner_segment(r, c08::RBox{ R.l, R.t, R.r, R.b }, M, p1, p2, into, offs)) continue;
+      P.push_back(p1); P.push_back(p2);
+      ctx.count(into ? "gen_corner_into_interior" : "gen_corner_grazing");
+      if (offs) ctx.count("gen_corner_with_sub_unit_offset");
+    }
+    for (int j = 0; j < post; ++j) P.push_back(rnd());
+    if (P.empty()) continue;
+    PP.push_back(P);
+  }
+  if (PP.empty()) return false;
+  c.p64["L"] = PP;
+  c.p64["R"] = Paths64{ Path64{ Point64(R.l, R.t), Point64(R.r, R.b) } };
+  c.set("class", "corner");
+  ctx.count("mag_2^" + std::to_string(e));
+  return true;
+}
+
 } // namespace
 
 void vf_case(Ctx& ctx, uint64_t i) {
   Case c;
-  bool ok = (i % 2 == 0) ? gen_lattice(ctx, c) : gen_random(ctx, c);
+  int sel = (int)(i % 10);
+  bool ok = sel < 4 ? gen_lattice(ctx, c) : sel < 5 ? gen_corner(ctx, c) : gen_random(ctx, c);
   if (!ok) { ctx.count("gen_gave_up"); return; }
   ctx.count("class_" + c.gets("class"));
   judge(ctx, c, false);
